@@ -65,6 +65,9 @@ type EmissionInfo struct {
 	Origin   string // counted | embedded | stuck
 	Recount  base.VoteResult
 	Findings []Finding
+	// IDShared: the emitted voteproof arrived embedded in a ballot and its ID was
+	// also submitted with other content
+	IDShared bool
 }
 
 func vpKind(vp base.Voteproof) (stage, shape string, expels []base.SuffrageExpelOperation, stuck bool) {
@@ -142,7 +145,15 @@ func CheckEmission(d *Driver, e Emission) EmissionInfo {
 		origin = "embedded"
 	}
 	info.Origin = origin
+	d.NoteEmitted(vp)
 	head := fmt.Sprintf("%s:%s", origin, shape) // stage is not part of the kind of failure
+	if origin == "embedded" && d.IDShared(vp) {
+		// an embedded voteproof whose ID was submitted with other content as
+		// well: failing only for those is another kind of failure (state keyed by
+		// the ID survives between calls) than failing for embedded voteproofs at large
+		info.IDShared = true
+		head = fmt.Sprintf("%s-id-reused:%s", origin, shape)
+	}
 	if origin != "embedded" && d.SubmittedAt(vp.Point()) < 1 {
 		add(head+":a:point-never-voted-on", fmt.Sprintf("voteproof %s for %s: no ballot or sign fact was ever submitted for that stage point", vp.ID(), vp.Point()))
 	}
